@@ -246,6 +246,22 @@ def mapVal (ks : List String) (ws : List Value) : Res Value :=
     | .panic w => .panic w
     | .unmodelled => .unmodelled
 
+/-- no key occurs twice -/
+def keysDistinct : List String → Bool
+  | [] => true
+  | k :: ks => !ks.contains k && keysDistinct ks
+
+/-- insertion of a key/value pair into parallel lists sorted by key -/
+def insertKV (k : String) (w : Value) : List String → List Value → List String × List Value
+  | x :: xs, y :: ys =>
+    if k < x then (k :: x :: xs, w :: y :: ys) else ((x :: (insertKV k w xs ys).1), (y :: (insertKV k w xs ys).2))
+  | _, _ => ([k], [w])
+
+/-- key/value pairs in ascending key order (how the harness prints a cty map) -/
+def sortKV : List String → List Value → List String × List Value
+  | k :: ks, w :: ws => insertKV k w (sortKV ks ws).1 (sortKV ks ws).2
+  | _, _ => ([], [])
+
 /-- `cty.ObjectVal`: the type is assembled from the *values'* types -/
 def objectVal (names : List String) (ws : List Value) : Value :=
   ⟨.object names (tysOf ws) (names.map fun _ => false), .smap names (payloads ws)⟩
@@ -391,7 +407,12 @@ def toCtyG (norm : String → String) (pass : Bool) : GoVal → Ty → Res Value
        if vs.isEmpty then .ok ⟨.map ety, .smap [] []⟩
        else
          (match combAll (toCtyL norm vs ety) with
-          | .ok ws => if ks.map norm != ks then .unmodelled else mapVal ks ws
+          | .ok ws =>
+            if ks.map norm != ks then
+              -- `cty.MapVal` normalises the keys; two Go keys with one normal form: Go map order decides
+              (if !keysDistinct (ks.map norm) then .unmodelled
+               else mapVal (sortKV (ks.map norm) ws).1 (sortKV (ks.map norm) ws).2)
+            else mapVal ks ws
           | .err c => .err c
           | .panic w => .panic w
           | .unmodelled => .unmodelled)
